@@ -568,14 +568,21 @@ def native_crate(crate, prop, tier, scratch):
     os.makedirs(vd, exist_ok=True)
     names = []
     metas = {}
-    for srcfile, nfile, modname in cfg['modules']:
+    for mod in cfg['modules']:
+        srcfile, nfile, modname = mod[0], mod[1], mod[2]
         src = os.path.join(VERIF, 'native', crate, nfile)
         if not os.path.exists(src):
             src = os.path.join(VERIF, 'native', 'common', nfile)
         sel = [t for t in parse_native_file(src) if prop in t['props'] and not (t.get('tier') == 'thorough' and tier != 'thorough')]
         if not sel:
             continue
-        shutil.copy(src, os.path.join(vd, nfile))
+        with open(src, encoding='utf-8') as f:
+            text = f.read()
+        for k, v in (mod[3] if len(mod) > 3 else {}).items():
+            text = text.replace('@%s@' % k, str(v))
+        gen_name = '%s__%s' % (srcfile.replace('/', '_').replace('.rs', ''), nfile)
+        with open(os.path.join(vd, gen_name), 'w', encoding='utf-8') as f:
+            f.write(text)
         target = os.path.join(ws, crate, srcfile)
         if not os.path.exists(target):
             res['status'] = 'undecided'
@@ -586,12 +593,23 @@ def native_crate(crate, prop, tier, scratch):
             already = marker in f.read()
         if not already:
             with open(target, 'a', encoding='utf-8') as f:
-                f.write('\n#[cfg(test)]\nmod %s {\n    #![allow(unused, dead_code)]\n    use super::*;\n    include!(concat!(env!("CARGO_MANIFEST_DIR"), "/verif_native/%s"));\n}\n' % (modname, nfile))
+                f.write('\n#[cfg(test)]\nmod %s {\n    #![allow(unused, dead_code)]\n    use super::*;\n    include!(concat!(env!("CARGO_MANIFEST_DIR"), "/verif_native/%s"));\n}\n' % (modname, gen_name))
         for t in sel:
             t['srcfile'] = '%s/%s' % (crate, srcfile)
             if t['name'] not in names:
                 names.append(t['name'])
             metas[t['name']] = t
+    for dep in getattr(registry, 'NATIVE_DEV_DEPS', {}).get(crate, []):
+        ct = os.path.join(ws, crate, 'Cargo.toml')
+        with open(ct, encoding='utf-8') as f:
+            ctext = f.read()
+        if dep not in ctext:
+            if '[dev-dependencies]' in ctext:
+                ctext = ctext.replace('[dev-dependencies]', '[dev-dependencies]\n' + dep, 1)
+            else:
+                ctext += '\n[dev-dependencies]\n' + dep + '\n'
+            with open(ct, 'w', encoding='utf-8') as f:
+                f.write(ctext)
     if not names:
         res['status'] = 'undecided'
         res['hard'].append(dict(kind='vacuous', msg='no native test selected for %s in %s' % (prop, crate)))
@@ -814,7 +832,7 @@ def main():
     for f in other_prop_failures:
         log('[%s] note: obligation %s (tagged %s) fails in a shared harness; not attributed to %s' % (prop, f['name'], ','.join(f['props']), prop))
 
-    write_evidence(prop, tier, seed, cfg, results, violations, known_hits, undecided, time.time() - t0)
+    write_evidence(prop, tier, seed, cfg, results, violations, known_hits, undecided, time.time() - t0, other_prop_failures)
     for ln in lines_out:
         log(ln)
     if rc == 0:
@@ -822,7 +840,7 @@ def main():
     return rc
 
 
-def write_evidence(prop, tier, seed, cfg, results, violations, known_hits, undecided, wall):
+def write_evidence(prop, tier, seed, cfg, results, violations, known_hits, undecided, wall, other_prop_failures=()):
     obligations = 0
     discharged = 0
     bounded = 0
@@ -873,8 +891,12 @@ def write_evidence(prop, tier, seed, cfg, results, violations, known_hits, undec
         else:
             for h in r.get('harnesses', []):
                 nfail = h['failed']
-                obligations += h['checks']
+                # checks that fail as a recorded known finding are reported under `known_findings`, not as obligations of this proof
+                # (likewise checks of a shared harness that belong to another property and fail there)
+                n_known = len([1 for (f, k) in known_hits if f.get('full') == h['full']]) + len([1 for f in other_prop_failures if f.get('full') == h['full']])
+                obligations += h['checks'] - n_known
                 ok = h['checks'] - nfail if h['status'] in ('Success', 'Failure') else 0
+                nfail_reported = nfail - n_known
                 discharged += ok
                 if h['kind'] == 'complete':
                     proved += ok
@@ -903,8 +925,9 @@ def write_evidence(prop, tier, seed, cfg, results, violations, known_hits, undec
             rewrites_applied_by_extraction=dropped[:400],
             unverified_composition=cfg.get('residual', ''),
             scope=cfg.get('scope', ''),
-            failing=[dict(obligation=f['name'], detail=(f.get('desc') or f.get('msg') or '')[:300]) for (_, f) in violations] +
-                    [dict(obligation=f['name'], known_finding=k['text']) for (f, k) in known_hits],
+            failing=[dict(obligation=f['name'], detail=(f.get('desc') or f.get('msg') or '')[:300]) for (_, f) in violations],
+            known_findings=[dict(obligation=f['name'], harness=f.get('harness'), known_finding=k['text']) for (f, k) in known_hits],
+            failing_for_other_properties=[dict(obligation=f['name'], harness=f.get('harness'), props=f.get('props')) for f in other_prop_failures],
             undecided=[dict(obligation=f['name'], detail=(f.get('desc') or f.get('msg') or '')[:300]) for (_, f) in undecided][:20],
             exhaustive=False,
         ),
